@@ -108,7 +108,7 @@ NextHwm(n) == LET ks == {k \in (l + 1)..(IF l + 8 < Len(Trace) THEN l + 8 ELSE L
 Plausible(n) == hwmSeen[n] \cup {NextHwm(n)}
 TIn == /\ Is("cdc.in") /\ Step /\ inq[N] # <<>>
        /\ LET g == Head(inq[N])
-              okT == Ev.idx # 0 /\ ((\E h \in Plausible(N) : Ev.idx <= h) \/ Ev.idx <= startHigh[N])
+              okT == Ev.idx # 0 /\ ((\E h \in Plausible(N) : Ev.idx <= h) \/ Ev.idx < startHigh[N])
               okF == Ev.idx = 0 \/ (\E h \in Plausible(N) : Ev.idx > h)
               b1 == Flag(bad, g[3] = Ev.idx, "in-channel-order")
               b2 == Flag(b1, IF Ev.ignored THEN okT ELSE okF, "batcher-filter-decision")
